@@ -145,6 +145,9 @@ def run(ctx):
             # the idiom with another constant: `(v >> bits) <= k` accepts every v below (k + 1) * 2^bits
             rep.violation('R-C06-1', 'R-C06-1/value-fits/constants', 'value-fit guard accepts (v >> bits) <= %s: values up to %d * 2^bits - 1 pass, the bit decomposition keeps only `bits` bits of them' % (
                 a[3], int(a[3]) + 1), ctx.where(p, r['guard'].bb))
+        elif not idiom and a[1] == 'Le' and a[2].lstrip('-').isdigit() and a[3].startswith('(each(%s.openings).v Shr ' % W):
+            # the comparison turned around: `(v >> bits) >= k` is what is accepted -- for k = 0 that is every value
+            rep.violation('R-C06-1', 'R-C06-1/value-fits/constants', 'value-fit guard accepts %s <= (v >> bits): it does not bound the value from above' % a[2], ctx.where(p, r['guard'].bb))
         elif not idiom:
             # the other common spelling: a comparison of the value with a bound computed from the bit length
             from .common import bound_verdict
